@@ -1,7 +1,8 @@
 //! Plain-Rust emulation of the wasm32 simd128 intrinsics used by memchr (see
 //! emu_aarch64.rs). `v128_load` is checked and recorded; the crate's `load_aligned` is a
-//! plain dereference of a `*const v128` and is therefore not intercepted (it is executed
-//! natively; `v128` here has alignment 16 like the real type).
+//! plain dereference of a `*const v128`, which mkemu.py rewrites into a call of
+//! `v128_deref_aligned` below (checked and recorded as an ALIGNED 16-byte load; `v128` here
+//! has alignment 16 like the real type).
 #![allow(non_camel_case_types, missing_docs, dead_code)]
 
 #[derive(Clone, Copy, Debug)]
@@ -18,6 +19,19 @@ pub unsafe fn v128_load(ptr: *const v128) -> v128 {
     let p = ptr as *const u8;
     let mut lanes = [0u8; 16];
     if crate::verif::note_load(p, 16, false) {
+        for i in 0..16 {
+            lanes[i] = *p.add(i);
+        }
+    }
+    v128(lanes)
+}
+
+/// what `*ptr` on a `*const v128` does: a 16-byte load that requires 16-byte alignment
+#[inline(always)]
+pub unsafe fn v128_deref_aligned(ptr: *const v128) -> v128 {
+    let p = ptr as *const u8;
+    let mut lanes = [0u8; 16];
+    if crate::verif::note_load(p, 16, true) {
         for i in 0..16 {
             lanes[i] = *p.add(i);
         }
